@@ -186,7 +186,7 @@ def unstable_first(cx):
     cx.check(n >= 1, "term:raw-lookup:floor", "the unstable term lookup has a caller")
 
 
-@obligation("LOGGUARD.slice", ["C14", "C05", "C07", "C13"], floor=3, kind="guard (CNF) + value shape",
+@obligation("LOGGUARD.slice", ["C14", "C05", "C07", "C13", "C20", "C15"], floor=3, kind="guard (CNF) + value shape",
             why="a slice that glues unstable entries behind a truncated stable read has a hole; an unlimited read ignores max_size")
 def slice_(cx):
     f = cx.fn("RaftLog::slice")
@@ -230,6 +230,20 @@ def slice_(cx):
     chk = [c for c in cx.prog.all_calls if c.fn is f and c.data["callee"] == cx.sfx("RaftLog::must_check_outofbounds")]
     ok = len(chk) == 1 and all(g.dominated_by_block(c.at, lambda b: b == chk[0].block) for c in se + ext)
     cx.check(ok, "bounds-first", "slice validates [low, high) against the log before reading anything")
+    # the two storage errors a contract-abiding run can meet -- the range was compacted in the meantime, or the entries
+    # are being fetched asynchronously -- go back to the caller (who sends a snapshot / retries); they are not fatal
+    try:
+        rets = g.returns(limit=20000)
+    except OverflowError:
+        rets = []
+    for V in ("Compacted", "LogTemporarilyUnavailable"):
+        hit = False
+        for lits, v, _ in rets:
+            if not ((v[0] == "adt" and v[1].endswith("Result::Err")) or (v[0] == "call" and v[1].endswith("::from_residual"))):
+                continue
+            if any(l[0] == "in" and V in l[2] and len(l[2]) <= 2 and any(x[0] == "call" and x[1].endswith("Storage::entries") for x in walk(l[1])) for l in lits):
+                hit = True
+        cx.check(hit, "store-error:" + V, "a stable read answered %s is returned to the caller as that error (not a fatal!)" % V)
 
 
 def limiter_closure(cx, cp):
@@ -253,6 +267,24 @@ def limit_size(cx):
     early = any(any(l[0] == "is" and l[2] is False and l[1][0] == "bin" and l[1][1] == "Lt" and l[1][2] == ("int", 1) for l in lits) for lits, v, _ in rets)
     cx.check(early, "keep-one", "a vector of at most one entry is never truncated")
     clos = [sp for sp, s in cx.prog.calls_out[f.key] if s.kind == "closure"]
+    if not clos:
+        # second form: an explicit loop with a kept-counter and a running byte size,
+        #   for e in entries { let first = size == 0; size += e.compute_size(); if !first && size > max { break } kept += 1 }
+        g = cx.pg(f)
+        lits = [l for n_ in range(len(g.nodes)) for _, ls in g.edges[n_] or [] for l in ls]
+        def over(l, strict_only=True):
+            return l[0] == "is" and l[1][0] == "bin" and l[1][1] == "Lt" and any(x[0] == "call" and x[1].endswith("compute_size") or x[0] == "opaque" for x in walk(l[1][3])) and any(x[0] == "vfield" or x[0] == "param" for x in walk(l[1][2]))
+        first = [l for l in lits if l[0] in ("in", "notin") and l[2] == frozenset([0]) and l[1][0] in ("phi", "opaque", "local")]
+        ov = [l for l in lits if over(l)]
+        nonstrict = [l for l in lits if l[0] == "is" and l[1][0] == "bin" and l[1][1] == "Lt" and any(x[0] == "call" and x[1].endswith("compute_size") or x[0] == "opaque" for x in walk(l[1][2])) and any(x[0] == "vfield" or x[0] == "param" for x in walk(l[1][3]))]
+        cx.check(bool(first), "first-always", "the first entry is always kept (the running size is tested against 0 before the entry is added)")
+        cx.check(bool(ov) and not nonstrict, "within-limit", "a further entry is kept iff the cumulative size stays <= max: the loop stops only on `size > max` (found %s)" % [show_lit(l)[:80] for l in (ov + nonstrict)][:3])
+        tr = [c for c in cx.prog.all_calls if c.fn is f and c.data["callee"].endswith("Vec::truncate")]
+        cx.check(len(tr) == 1, "truncate", "the vector is truncated to the counted prefix")
+        if tr:
+            k = call_args(cx, tr[0])[1]
+            cx.check(k[0] in ("phi", "local"), "truncate:counter", "truncate receives the kept-counter (found %s)" % show(k)[:80])
+        return
     cx.check(len(clos) == 1, "closure", "limit_size counts with one take_while closure")
     for cp in clos:
         ok1, ok2, rest = limiter_closure(cx, cp)
